@@ -164,6 +164,10 @@ def step(w, kind, op):
     if kind == "sorted":
         qs = [w.q(mm, t) for mm, t in op[1]]
         return [enc_q(w, x) for x in sorted(qs)]
+    if kind == "decimal_prec":
+        import decimal
+        decimal.getcontext().prec = op[1]     # the program changes the ambient decimal precision (for everything after)
+        return True
     if kind == "flush":
         for _, f in lru_caches(conv):
             f.cache_clear()
